@@ -36,7 +36,7 @@ TABLES = [
                 "decimal": "about 1.0 per unit", "backtick": "see `Default` below", "dfltword": "the defaulted option - if any",
                 "twosent": "Size: small. Kept"},
      "value": {"intPos": ("1", 1), "intNeg": ("-100", -100), "int0": ("0", 0), "float": ("1.0", 1.0), "floatNeg": ("-1.0", -1.0), "exp": ("1e3", 1000.0),
-               "boolT": ("True", True), "boolF": ("False", False), "none": ("None", None), "bare": ("sgd", "sgd"), "quoted": ('"sgd"', "sgd"),
+               "boolT": ("True", True), "boolF": ("False", False), "none": ("None", None), "bare": ("r", "r"), "quoted": ('"r"', "r"),      # a string of a single character
                "bracketed": ("[0]", "[0]"), "brackdot": ("[1.0]", "[1.0]"), "tuple": ("(0, 1)", "(0, 1)"),
                "call": ("os.getcwd()", "os.getcwd()"), "dotted": ("os.sep", "os.sep"), "code": ("```os.getcwd()```", "```os.getcwd()```")},
      "suffix": {"none": "", "stop": ".", "sentence": ". Optional"}},
